@@ -335,6 +335,7 @@ def corrupt_order_or_dd(t, rng):
 
 # ----------------------------------------------------------------------------- run
 def run(ctx):
+    ctx.liveness("PinTsv", unfair_control=not ctx.quick)      # termination under weak fairness (PinTsv_live.cfg)
     rng = np.random.default_rng(ctx.seed)
     # ---------------- (M) ----------------
     ctx.model_check("PinTsv", "PinTsv_quick.cfg", note="0..2 features, 1..2 PSM lines, 1..3 proteins, every position, 3 DD kinds, nl")
